@@ -41,6 +41,57 @@ class Unit:
 TOUCHED_NODES: set = set()  # id() of function nodes the abstract interpreter executed (filled by absint.run_function)
 
 
+def _calls(fn):
+    return [n for n in ast.walk(fn) if isinstance(n, ast.Call)]
+
+
+def _coroutine_started_with(qname):
+    """`<x>.create_task(<f>(<...qname...>))`: the coroutine function started on that queue."""
+    def finder(fn):
+        out = []
+        for c in _calls(fn):
+            if isinstance(c.func, ast.Attribute) and c.func.attr == "create_task" and c.args and isinstance(c.args[0], ast.Call) \
+                    and any(qname in ast.unparse(a) for a in c.args[0].args):
+                out.append(c.args[0].func)
+        return out
+    return finder
+
+
+def _finalizer(fn):
+    return [c.args[1] for c in _calls(fn) if ast.unparse(c.func) == "weakref.finalize" and len(c.args) >= 2]
+
+
+def _called(fn):
+    return [c.func for c in _calls(fn) if isinstance(c.func, (ast.Name, ast.Attribute))]
+
+
+# role name (the position the function had when the rules were written) -> (function to start from, candidate callables in it)
+ROLE_UNITS = {
+    "function.py::Function.init.task_reaper": ("function.py::Function.init", _coroutine_started_with("task_reaper_q")),
+    "function.py::Function.init.task_waiter": ("function.py::Function.init", _coroutine_started_with("task_waiter_q")),
+    "decorator.py::FunctionDecoratorManager.__init__.on_func_var_deleted": ("decorator.py::FunctionDecoratorManager.__init__", _finalizer),
+}
+# roles found as "the one <kind> function of this module that the host calls": (host, predicate on the candidate's definition)
+ROLE_UNITS_BY_KIND = {
+    "trigger.py::TrigInfo.call_action.do_func_call": ("trigger.py::TrigInfo.call_action", lambda d: isinstance(d, ast.AsyncFunctionDef)),
+    "trigger.py::TrigTime.init.user_task_create_factory.user_task_create.func_call":
+        ("trigger.py::TrigTime.init.user_task_create_factory.user_task_create", lambda d: isinstance(d, ast.AsyncFunctionDef)),
+    "jupyter_kernel.py::Kernel.send.encode": ("jupyter_kernel.py::Kernel.send", lambda d: isinstance(d, ast.FunctionDef) and "json.dumps" in ast.unparse(d)),
+    "jupyter_kernel.py::Kernel.receive.decode": ("jupyter_kernel.py::Kernel.receive", lambda d: isinstance(d, ast.FunctionDef) and "json.loads" in ast.unparse(d)),
+}
+
+
+def _by_kind(pred):
+    def finder(fn):
+        return _called(fn)
+    finder.pred = pred
+    return finder
+
+
+for _role, (_host, _pred) in ROLE_UNITS_BY_KIND.items():
+    ROLE_UNITS[_role] = (_host, _by_kind(_pred))
+
+
 class Program:
     """All parsed modules of the package."""
 
@@ -52,6 +103,8 @@ class Program:
         self.units: dict[str, Unit] = {}
         self.classes: dict[str, Unit] = {}
         self.touched: set[str] = set()  # units a rule asked for by name
+        self.by_qual: dict[tuple, Unit] = {}  # (module, qualified name in the code) -> unit, whatever name the rules know it under
+        self.role_aliases: dict[str, str] = {}  # role name used by the rules -> where the code has the function now
         self._load()
 
     # ------------------------------------------------------------------
@@ -74,6 +127,87 @@ class Program:
                 self.sources[rel] = src
                 self.modules[rel] = tree
                 self._index(rel, tree)
+        self._resolve_roles()
+
+    # ------------------------------------------------------------------
+    def resolve_callable(self, unit, expr):
+        """The unit a callable expression denotes when read inside ``unit``: a nested function of it or of an enclosing function, a method of
+        its class (`self.f`, `cls.f`, `Class.f`) or a module-level function of its module.  None when it is none of these."""
+        rel = unit.rel
+        parts = unit.qual.split(".")
+        if isinstance(expr, ast.Name):
+            for i in range(len(parts), -1, -1):
+                scope = self.by_qual.get((rel, ".".join(parts[:i]))) if i else None
+                if scope is not None and isinstance(scope.node, ast.ClassDef):
+                    continue  # (a class body is not an enclosing scope of its methods' code)
+                u = self.by_qual.get((rel, ".".join(parts[:i] + [expr.id])))
+                if u is not None:
+                    return u
+            return None
+        if isinstance(expr, ast.Attribute) and isinstance(expr.value, ast.Name):
+            base = expr.value.id
+            if base in ("self", "cls"):
+                for i in range(len(parts) - 1, 0, -1):
+                    cu = self.by_qual.get((rel, ".".join(parts[:i])))
+                    if cu is not None and isinstance(cu.node, ast.ClassDef):
+                        return self.by_qual.get((rel, ".".join(parts[:i]) + "." + expr.attr))
+                return None
+            cu = self.classes.get(base)
+            if cu is not None:
+                return self.by_qual.get((cu.rel, f"{cu.qual}.{expr.attr}"))
+        return None
+
+    def callers_of(self, unit):
+        """Units of the package that call ``unit`` (a nested function, method or module-level function): calls that resolve to it, plus - to stay
+        on the safe side - any call `<x>.<name>(..)` on a receiver that cannot be resolved."""
+        name = unit.node.name
+        out = []
+        for u in list(self.units.values()):
+            if not isinstance(u.node, (ast.FunctionDef, ast.AsyncFunctionDef)) or u is unit:
+                continue
+            for n in body_walk(u.node):
+                refs = []
+                if isinstance(n, ast.Call):
+                    refs = [n.func] + [a for a in n.args if isinstance(a, (ast.Name, ast.Attribute))] + [k.value for k in n.keywords if isinstance(k.value, (ast.Name, ast.Attribute))]
+                for f in refs:
+                    if (isinstance(f, ast.Name) and f.id == name) or (isinstance(f, ast.Attribute) and f.attr == name):
+                        r = self.resolve_callable(u, f)
+                        if r is unit or (r is None and isinstance(f, ast.Attribute) and f is n.func):
+                            if u not in out:
+                                out.append(u)
+        return out
+
+    def only_reached_from(self, uid, allowed, depth=4):
+        """True when the function is one of ``allowed`` or a helper that is called (transitively) from allowed functions only."""
+        if uid in allowed:
+            return True
+        u = self.units.get(uid)
+        if u is None or depth == 0 or not isinstance(u.node, (ast.FunctionDef, ast.AsyncFunctionDef)):
+            return False
+        callers = self.callers_of(u)
+        return bool(callers) and all(self.only_reached_from(c.uid, allowed, depth - 1) for c in callers)
+
+    def _resolve_roles(self):
+        """Nested helpers that rules name by their position (`Function.init.task_reaper`) are found again by their role when a refactoring moved
+        or renamed them (nested function -> method / module-level function): the unit is then known under the name the rules use."""
+        for role_uid, (from_uid, finder) in ROLE_UNITS.items():
+            if role_uid in self.units or from_uid not in self.units:
+                continue
+            host = self.units[from_uid]
+            cands = []
+            for expr in finder(host.node):
+                u = self.resolve_callable(host, expr)
+                pred = getattr(finder, "pred", None)
+                if u is not None and isinstance(u.node, (ast.FunctionDef, ast.AsyncFunctionDef)) and u not in cands and u.rel == host.rel \
+                        and u is not host and (pred is None or pred(u.node)):
+                    cands.append(u)
+            if len(cands) == 1:
+                real = cands[0]
+                for k in [k for k, v in self.units.items() if v is real]:
+                    del self.units[k]
+                self.role_aliases[role_uid] = real.uid
+                self.units[role_uid] = real
+                real.uid = role_uid
 
     def _index(self, rel, tree):
         for node in ast.walk(tree):
@@ -95,6 +229,7 @@ class Program:
                     unit = Unit(uid, rel, qual, child, cls, parent_unit)
                     child._unit = unit  # type: ignore[attr-defined]
                     self.units[uid] = unit
+                    self.by_qual[(rel, qual)] = unit
                     if isinstance(child, ast.ClassDef):
                         self.classes.setdefault(child.name, unit)
                         visit(child, qual + ".", child.name, unit)
